@@ -6013,7 +6013,7 @@ CONTAINS
 !DEC$if defined(BUILD_CGNS_DLL)
 !DEC$ATTRIBUTES DLLEXPORT :: cg_coord_id_f
 !DEC$endif
-  SUBROUTINE cg_coord_id_f(fn, B, Z, C, ier)
+  SUBROUTINE cg_coord_id_f(fn, B, Z, C, coord_id, ier)
     IMPLICIT NONE
     INTEGER :: fn
     INTEGER :: B
